@@ -308,6 +308,16 @@ theorem step_inv {w : World} (hw : WInv w) (op : Op) (wb : WB w op) : WInv (step
     cases hid : w.ids m with
     | none => exact hw
     | some id => exact removeAllLoop_inv _ w hw hid
+  | exitCtx m exc =>
+    simp only [step]
+    cases hid : w.ids m with
+    | none => exact hw
+    | some id =>
+      have h := removeAllLoop_inv (w.servers m) w hw hid
+      simp only []
+      generalize removeAllLoop m w (w.servers m) = r at h
+      obtain ⟨w1, out1⟩ := r
+      cases out1 <;> exact h
   | addDest m s a =>
     simp only [step]
     cases hid : w.ids m with
